@@ -319,7 +319,7 @@ func checkC05(c *ev.Ctx) {
 		} else {
 			c.Count("rejected_while_reading", 1)
 		}
-		if i%20011 == 0 {
+		if i%7919 == 0 {
 			c.Sample(map[string]any{"stream": s.ID, "format": s.Format, "stream_len": len(s.B), "cut": j.cut, "ctor_error": fmt.Sprint(cerr), "read_error": fmt.Sprint(rerr), "delivered": len(out)})
 		}
 	})
